@@ -681,7 +681,7 @@ func directed(c *mon.Ctx) {
 func main() {
 	mon.Main(mon.Options{
 		Property: "C15", Level: "exploration",
-		Rule: "live: per shard 6 nodes (real Executer + real Generator + real pool, 2-5 validators, random subset enabled), one action per real 3 s slot: forge() (block recorded at AddInternal, checked there against the generator DB and every header the generator ever signed, then processed by the same node), hand-off dropped + generator restart, tip deletions, restarts, blocks of other validators; directed: forge up, lose blocks, forge lower, forge again; select: clock-free replay of selectTransactionsByFee over random pools/verdicts/size limits. non-trivial+distinct = (rig shape, forged count) / (senders, selected, dropped senders, limit)",
+		Rule: "(the scripted application inserts assets into generated blocks: block-level events and, sometimes, a validator-set / threshold change.) live: per shard 6 nodes (real Executer + real Generator + real pool, 2-5 validators, random subset enabled), one action per real 3 s slot: forge() (block recorded at AddInternal, checked there against the generator DB and every header the generator ever signed, then processed by the same node), hand-off dropped + generator restart, tip deletions, restarts, blocks of other validators; directed: forge up, lose blocks, forge lower, forge again; select: clock-free replay of selectTransactionsByFee over random pools/verdicts/size limits. non-trivial+distinct = (rig shape, forged count) / (senders, selected, dropped senders, limit)",
 		Assumptions: []string{
 			"forge() reads time.Now(): verdicts use only recorded headers and DB reads; a forged block whose timestamp left the slot read at the start of the step is inconclusive (clock slip)",
 			"a contradiction that persists with the honest maxHeightGenerated (double forging in one slot after a lost hand-off, harness-made chain switch without higher maxHeightPrevoted) is attributed to the scenario, not to the generator",
